@@ -7,7 +7,7 @@ PROP=$1; PATCH=$(readlink -f "$2"); TIER=${3:-quick}
 TAG=seed$$
 WT=/tmp/seedrun-$TAG
 cd /verif
-git -C /repo worktree add -q --detach "$WT" HEAD || exit 3
+git -C /repo worktree add -q --detach "$WT" ${SEEDRUN_BASE:-HEAD} || exit 3
 trap 'git -C /repo worktree remove --force "$WT" >/dev/null 2>&1; rm -rf /verif/bin-'$TAG' /verif/out-'$TAG' /verif/evidence-'$TAG'' EXIT
 if ! git -C "$WT" apply "$PATCH"; then echo "PATCH-DOES-NOT-APPLY"; exit 3; fi
 VERIF_ALT=$TAG VERIF_REPO=$WT ./check "$PROP" --tier "$TIER" > /tmp/seedrun-$TAG.out 2>&1
